@@ -2,6 +2,7 @@ import LJT.Proofs.SeqHuff
 import LJT.Proofs.ProgAC
 import LJT.Proofs.ProgRef
 import LJT.Model.ProgHuff
+import LJT.Proofs.ArithBin
 /-! # C03 - entropy coding and scan structure never change the coefficients
 
 Property theorems about `LJT.SeqHuff` (Model/SeqHuff.lean: the block coder of
@@ -168,6 +169,48 @@ theorem refinement_complete (v : Int) : ProgAC.newOf (2 ^ 0) (ProgHuff.pointRef 
 symbol of the new coefficient; a second, quiet block is folded into an EOB run with its correction bit -/
 example : ProgAC.refEv 0 [] [[(2, false)] ++ List.replicate 16 (0, false) ++ [(1, true)], [(3, false)] ++ List.replicate 17 (0, false)] =
     [.sym 0xF0, .bits 0 1, .sym 1, .bits 0 1, .sym 0, .bits 1 1] := by
+  decide
+
+/-! ### arithmetic coding: the binarisation (src/jcarith.c / src/jdarith.c)
+
+The QM coder is treated as a channel that delivers (statistics bin, decision) pairs in order; it
+is modelled in Model/Arith.lean (decoder) and Model/ArithEnc.lean (encoder) and tied to
+libjpeg-turbo byte for byte in both directions (C04 `arifile`, `t81`), but not proved.  What is
+proved is that the binarisation on top of it loses nothing: `ArithBin.lsrc` hands the encoder's
+decisions to the decoding procedures the reader runs and flags any request for a bin other than
+the one the encoder used. -/
+
+/-- **DC differences (Figure F.4 ... F.9)**: for every difference of magnitude up to 2^15, every
+table, conditioning context and conditioning bounds L, U: the decoder gets the difference back,
+arrives at the same new context, has asked for exactly the encoder's bins (flag unchanged) and
+leaves exactly the decisions that follow -/
+theorem arith_dc_roundtrip (tbl ctx L U : Nat) (v : Int) (hv : v.natAbs ≤ 32768) (rest : List ArithBin.Dn) (f : Bool) :
+    ArithBin.decDC ArithBin.lsrc ((ArithBin.dcDiff tbl ctx L U v).1 ++ rest, f) tbl ctx L U =
+      some (v, (ArithBin.dcDiff tbl ctx L U v).2, (rest, f)) :=
+  ArithBin.decDC_dcDiff tbl ctx L U v hv rest f
+
+/-- **AC coefficients of a block or band (Figure F.5; sequential mode and first pass)**: for every
+list of coefficients (magnitude after the point transform up to 2^15, sign), from any zigzag
+position `k`, any table and conditioning bound K: end-of-block decisions, zero runs, signs,
+magnitude categories and magnitude bits decode to exactly the coefficients -/
+theorem arith_ac_roundtrip (tbl K k : Nat) (l : List (Nat × Bool)) (hb : ∀ c ∈ l, c.1 ≤ 32768) (rest : List ArithBin.Dn) (f : Bool) :
+    ArithBin.decF ArithBin.lsrc tbl K false k l.length (ArithBin.acF tbl K false k l ++ rest, f) =
+      some (l.map (fun c => ArithBin.sval c.2 c.1), (rest, f)) :=
+  ArithBin.decF_acF tbl K l false k rest f hb (fun h => by cases h)
+
+/-- **AC refinement (Figure G.10)**: for every band given as (|c| >> Al, sign) with no bound on the
+magnitude and every `p = 2^Al > 0`: from the values of the previous level (`prevOf`) the decoder
+reaches exactly the values of this level (`newOf`), the conditional end-of-block decision included -/
+theorem arith_refine_roundtrip (tbl k : Nat) (p : Int) (hp : 0 < p) (l : List (Nat × Bool)) (rest : List ArithBin.Dn) (f : Bool) :
+    ArithBin.decR ArithBin.lsrc tbl p false k (l.map (ProgAC.prevOf p)) (ArithBin.acR tbl false k l ++ rest, f) =
+      some (l.map (ProgAC.newOf p), (rest, f)) :=
+  ArithBin.decR_acR tbl p hp l false k rest f (fun h => by cases h)
+
+/-- non-vacuity: a band with a zero run, a coefficient of magnitude 5 and trailing zeros gives
+end-of-block 0, two "zero" decisions, "not zero", sign, the category decisions and one magnitude
+bit pattern, then end-of-block 1 -/
+example : ArithBin.acF 0 5 false 1 [(0, false), (0, false), (5, true), (0, false)] =
+    [(1024, 0), (1025, 0), (1028, 0), (1031, 1), (5120, 1), (1032, 1), (1032, 1), (1213, 1), (1214, 0), (1228, 0), (1228, 0), (1033, 1)] := by
   decide
 
 /-- non-vacuity: a small valid AC table (EOB, a run-0 size-1 symbol and ZRL) meets the
